@@ -89,7 +89,8 @@ def run_parallel(jobs, nproc):
     while pending or running:
         while pending and len(running) < nproc:
             argv, label = pending.pop(0)
-            running.append((subprocess.Popen(argv, stdout=subprocess.DEVNULL, stderr=subprocess.PIPE, text=True), label))
+            running.append((subprocess.Popen(argv, stdout=subprocess.DEVNULL, stderr=subprocess.PIPE, text=True,
+                                             env=dict(os.environ, OMP_WAIT_POLICY="passive")), label))
         still = []
         for pr, label in running:
             if pr.poll() is None:
@@ -150,7 +151,7 @@ def collect(ck, outs, stats_total, samples_key=None):
     return nrec
 
 
-def machine_phase(ck, exe, tag, maxlen, init, ops, nbuckets, harness_opts=(), emit_workers=None):
+def machine_phase(ck, exe, tag, maxlen, init, ops, nbuckets, harness_opts=(), emit_workers=None, nproc=None):
     """Emission by TLC + replay into the real classes."""
     cfg = os.path.join(ck.work, "emit_%s.cfg" % tag)
     open(cfg, "w").write(MC_CFG % dict(maxlen=maxlen, init=init, ops=ops, emit="TRUE", extra="CONSTRAINT EmitState\n"))
@@ -168,7 +169,7 @@ def machine_phase(ck, exe, tag, maxlen, init, ops, nbuckets, harness_opts=(), em
         outs.append(o)
         jobs.append(([exe, "machine", b, o, "isolate=" + iso] + list(harness_opts), b))
     t0 = time.time()
-    res = run_parallel(jobs, NPROC)
+    res = run_parallel(jobs, nproc or NPROC)
     for label, rc, err in res:
         if rc != 0:
             raise Broken("matrix_run failed on %s (exit %s): %s" % (label, rc, err))
@@ -317,8 +318,9 @@ def run(tier):
     # 4. thorough tier: thread counts and Kronecker inflations
     if not quick:
         for th in (1, 4, 16):
-            dis, gen, stats = machine_phase(ck, exe, "thr%d" % th, 1, "reduced", "all", 16,
-                                            harness_opts=["threads=%d" % th, "infl=%d" % (64 if th > 1 else 48)])
+            dis, gen, stats = machine_phase(ck, exe, "thr%d" % th, 1, "inflate", "all", 16,
+                                            harness_opts=["threads=%d" % th, "infl=%d" % (64 if th > 1 else 32)],
+                                            nproc=max(1, min(NPROC, 16 // th)))
             states += dis
             trans += gen
             nodes += stats.get("nodes", 0)
